@@ -256,8 +256,8 @@ func (la *lockAnalysis) buildDynamicEdges() {
 		eachInstr(f, func(in ssa.Instruction) {
 			switch x := in.(type) {
 			case *ssa.Call:
-				if c.StaticCalleeOf(&x.Call) == a.PushTask && len(x.Call.Args) == 3 && taskCall != nil {
-					if fn, _ := c.closureOf(x.Call.Args[2]); fn != nil {
+				if c.StaticCalleeOf(&x.Call) == a.PushTask && pushTaskArg(x) != nil && taskCall != nil {
+					if fn, _ := c.closureOf(pushTaskArg(x)); fn != nil {
 						la.dynEdges[g] = append(la.dynEdges[g], fn)
 						la.dynSites[fn] = append(la.dynSites[fn], taskCall)
 					}
